@@ -10,7 +10,8 @@
 //!    fresh chip): no panic, bounded samples, and after the history the generators run at the
 //!    periods of the final register file, the raw output is the gated sum the final register file
 //!    defines, and write-only histories are order independent (R13 excluded).
-//! D  Spectrum ports on the real Emulator (48K+AY, 128K): all 256 select values x data alphabet.
+//! D  Spectrum ports on the real Emulator (48K+AY, 128K): all 256 select values x data alphabet;
+//!    port->chip forwarding: the machine's audio for scripted port writes equals a chip fed the same writes.
 
 #[path = "../ay_common.rs"]
 mod ay_common;
@@ -1242,6 +1243,183 @@ fn port_checks(ctx: &Ctx, col: &Collector) {
     ctx.sample(json!({"part":"ports","sequence":"OUT FFFD sel; OUT BFFD d; IN FFFD; OUT FFFD sel^1; OUT BFFD !d; OUT FFFD sel^F0; IN FFFD; OUT FFFD sel^1^50; IN FFFD","data_alphabet_size":data.len()}));
 }
 
+// =================================================================== E. port -> chip forwarding
+
+/// A script is a list of frames; each frame a list of (select value, data) written through the
+/// ports by CPU-executed OUTs right at the frame start (before the first sample of that frame is
+/// generated), at most 5 per frame.
+type Script = Vec<Vec<(u8, u8)>>;
+
+fn forwarding_scripts() -> Vec<(String, Script)> {
+    let mut v: Vec<(String, Script)> = Vec::new();
+    let idle = |n: usize| -> Script { vec![vec![]; n] };
+    // envelope restart by re-writing the SAME shape value, for every shape
+    for shape in 0..16u8 {
+        let mut sc: Script = vec![vec![(7, 0x3E), (0, 0x00), (1, 0x01), (8, 0x10)], vec![(11, 0x00), (12, 0x03), (13, shape)]];
+        sc.extend(idle(9));
+        sc.push(vec![(13, shape)]);
+        sc.extend(idle(7));
+        sc.push(vec![(13, shape), (13, shape)]);
+        sc.extend(idle(5));
+        v.push((format!("same-shape-again:{}", shape), sc));
+    }
+    // every register re-written with the value it already holds, selects through aliases
+    {
+        let tune: Vec<(u8, u8)> = vec![(0, 0x34), (1, 0x02), (2, 0x80), (3, 0x01), (4, 0xC0), (5, 0x00), (6, 0x07), (7, 0x28), (8, 0x0F), (9, 0x0B), (10, 0x10), (11, 0x80), (12, 0x01), (13, 0x0E)];
+        let mut sc: Script = tune.chunks(5).map(|c| c.to_vec()).collect();
+        sc.extend(idle(4));
+        sc.extend(tune.chunks(5).map(|c| c.iter().map(|(r, d)| (r | 0xA0, *d)).collect::<Vec<_>>()));
+        sc.extend(idle(6));
+        v.push(("rewrite-all-through-aliases".into(), sc));
+    }
+    // one change per frame: volume staircase up and down, then period glide, mixer walk
+    {
+        let mut sc: Script = vec![vec![(7, 0x3E), (0, 0x7F), (1, 0x00), (8, 0x00)]];
+        for k in 0..16u8 {
+            sc.push(vec![(8, k)]);
+        }
+        for k in (0..16u8).rev() {
+            sc.push(vec![(0x18, k)]);
+        }
+        for k in 0..8u8 {
+            sc.push(vec![(8, 0x0F), (0, 0x40 + k * 9), (1, k & 3)]);
+        }
+        for m in [0x3Fu8, 0x3E, 0x36, 0x37, 0x00, 0x09, 0x3F] {
+            sc.push(vec![(6, 0x05), (7, m)]);
+        }
+        v.push(("one-change-per-frame".into(), sc));
+    }
+    // registers 14/15 and data for unselected registers must not disturb the sound
+    {
+        let mut sc: Script = vec![vec![(7, 0x3E), (0, 0x55), (1, 0x01), (8, 0x0D)]];
+        sc.extend(idle(2));
+        sc.push(vec![(14, 0xFF), (15, 0x00), (0x1E, 0x55)]);
+        sc.extend(idle(3));
+        v.push(("io-port-registers".into(), sc));
+    }
+    v
+}
+
+fn forwarding_case(m128: bool, rate: usize, ay_mode: u8, name: &str, script: &Script, verbose: bool) -> Result<u64, Fail> {
+    use rustzx_core::zx::sound::ay::ZXAYMode;
+    let mach = if m128 { "128k" } else { "48k" };
+    guarded("ports:audio", || {
+        let mut o = if m128 { Opts::k128() } else { Opts { ay: true, ..Opts::k48() } };
+        o.beeper = false;
+        o.rate = rate;
+        o.ay_mode = match ay_mode {
+            0 => ZXAYMode::Mono,
+            1 => ZXAYMode::ABC,
+            _ => ZXAYMode::ACB,
+        };
+        let mut e = rig::emu_stepping(&o);
+        rig::poke(&mut e, 0x8000, &[0xF3, 0x18, 0xFE]);
+        e.verif_cpu().regs.set_pc(0x8000);
+        let spf = rate / 50;
+        // the four chips the machine may legitimately contain
+        let mut refs: Vec<(String, AymPrecise, bool)> = Vec::new();
+        for ym in [false, true] {
+            for dc in [true, false] {
+                let mut c = chip(ym, ay_mode, rate);
+                if dc {
+                    c.enable_dc_filter();
+                }
+                refs.push((format!("{}{}", if ym { "YM" } else { "AY" }, if dc { "+dc-filter" } else { "" }), c, true));
+            }
+        }
+        let vol = o.volume as f64 / 200.0;
+        let mut h = fnv(name.as_bytes());
+        let mut first_bad: Option<(usize, usize, f32, f32)> = None;
+        for (fi, frame) in script.iter().enumerate() {
+            if frame.len() > 5 {
+                return Err(("C18:harness".into(), "more than 5 writes in a frame".into()));
+            }
+            let pc = e.verif_cpu().regs.get_pc();
+            for (sel, data) in frame.iter() {
+                rig::cpu_out(&mut e, CODE, 0xFFFD, *sel);
+                rig::cpu_out(&mut e, CODE, 0xBFFD, *data);
+            }
+            e.verif_cpu().regs.set_pc(pc);
+            let f0 = e.verif_total_frames();
+            let mut guard = 0;
+            while e.verif_total_frames() == f0 {
+                rig::step(&mut e);
+                guard += 1;
+                if guard > 100_000 {
+                    return Err(("C18:harness".into(), "frame never ends".into()));
+                }
+            }
+            let got = rig::drain_audio(&mut e);
+            if got.len() != spf {
+                return Err((format!("C18:ports:audio:sample-count:{}", mach), format!("{}: frame {} delivered {} samples at {} Hz (see C19)", mach, fi, got.len(), rate)));
+            }
+            for (_, c, alive) in refs.iter_mut() {
+                for (sel, data) in frame.iter() {
+                    c.write_register(sel & 0x0F, *data);
+                }
+                for (k, g) in got.iter().enumerate() {
+                    let sm = c.next_sample();
+                    let want = (((0.0f64 + sm.left) * vol) as f32, ((0.0f64 + sm.right) * vol) as f32);
+                    if *alive && ((g.0 - want.0).abs() > 1e-5 || (g.1 - want.1).abs() > 1e-5) {
+                        *alive = false;
+                        if first_bad.map_or(true, |b| (fi, k) > (b.0, b.1)) {
+                            first_bad = Some((fi, k, g.0, want.0));
+                        }
+                    }
+                }
+            }
+            for g in got.iter() {
+                h = fnv_mix(h, g.0.to_bits() as u64 ^ (g.1.to_bits() as u64) << 32);
+            }
+            if refs.iter().all(|r| !r.2) {
+                let (bf, bk, g, w) = first_bad.unwrap();
+                let last_writes: Vec<String> = script[..=fi].iter().enumerate().filter(|(_, f)| !f.is_empty()).map(|(i, f)| format!("frame {}: {:02x?}", i, f)).collect();
+                return Err((
+                    format!("C18:ports:audio-is-not-the-chip-fed-these-writes:{}", name.split(':').next().unwrap_or(name)),
+                    format!(
+                        "{} at {} Hz, script {}: up to frame {} sample {} the machine's audio equalled an AY/YM chip fed exactly the port writes (select value mod 16, data) at the frame starts; there it gives {} where the longest-matching chip gives {} (|d| > 1e-5). Writes so far: {}",
+                        mach, rate, name, bf, bk, g, w, last_writes.join("; ")
+                    ),
+                ));
+            }
+        }
+        if verbose {
+            println!("  {} {} Hz {}: matching chips {:?}", mach, rate, name, refs.iter().filter(|r| r.2).map(|r| r.0.clone()).collect::<Vec<_>>());
+        }
+        Ok(h)
+    })
+}
+
+fn forwarding_checks(ctx: &Ctx, col: &Collector) {
+    let scripts = forwarding_scripts();
+    let mut jobs: Vec<(bool, usize, u8, usize)> = Vec::new();
+    for (si, _) in scripts.iter().enumerate() {
+        for m128 in [false, true] {
+            for (rate, mode) in [(8000usize, 0u8), (22050, 1)] {
+                if !ctx.thorough() && (si + m128 as usize) % 2 == 1 && rate == 22050 {
+                    continue;
+                }
+                jobs.push((m128, rate, if m128 { mode } else { 2 - mode }, si));
+            }
+        }
+    }
+    let outs: Mutex<HashSet<u64>> = Mutex::new(HashSet::new());
+    par_for(jobs.len(), 1, |j| {
+        let (m128, rate, mode, si) = jobs[j];
+        match forwarding_case(m128, rate, mode, &scripts[si].0, &scripts[si].1, false) {
+            Ok(h) => {
+                outs.lock().unwrap().insert(h);
+            }
+            Err(f) => col.fail((60 + m128 as u64, si as u64, rate as u64), &f.0, &f.1, || json!({"kind":"port-audio","m128":m128,"rate":rate,"mode":mode,"script":scripts[si].0})),
+        }
+        ctx.add_eval(1);
+    });
+    for h in outs.into_inner().unwrap() {
+        ctx.outcome(h);
+    }
+    ctx.note("port_audio_scripts", json!(scripts.iter().map(|s| s.0.clone()).collect::<Vec<_>>()));
+}
+
 // =================================================================== entry
 
 pub fn run(tier: Tier, seed: u64, replay: Option<String>) -> i32 {
@@ -1272,6 +1450,7 @@ pub fn run(tier: Tier, seed: u64, replay: Option<String>) -> i32 {
     let t3 = std::time::Instant::now();
     if parts.contains('D') {
         port_checks(&ctx, &col);
+        forwarding_checks(&ctx, &col);
     }
     if std::env::var("VERIF_TIMING").is_ok() {
         eprintln!("timing: core {:.1}s api {:.1}s histories {:.1}s ports {:.1}s", (t1 - t0).as_secs_f64(), (t2 - t1).as_secs_f64(), (t3 - t2).as_secs_f64(), t3.elapsed().as_secs_f64());
@@ -1279,7 +1458,7 @@ pub fn run(tier: Tier, seed: u64, replay: Option<String>) -> i32 {
     ctx.sample(json!({"part":"hist","example": ops_json(&[Op::W(7, 0x0F), Op::G(7), Op::W(13, 0x0F), Op::G(1000)])}));
     col.flush(&ctx);
     ctx.finish(
-        "E-PROD + E-BFS. Core (chip tick = f_clk/8, hooks verif_tick/verif_levels): all 4096 tone period values (incl. 0) x 3 channels: toggle count and exact half period on the raw output; R6 values: noise clock count and interval; 16 shapes x EP {1,2,3,255,256,4095,65535} x 100 steps against the documented ramp pattern (constant phase free), amplitude monotone in level; all 256 R7 values x 3 channels against (tone|off)&(noise|off) built from measured tone-only/noise-only waves; all 256 volume register values x 3 channels x AY/YM; 7 stereo modes x 3 channels x AY/YM. API: 12 sample rates x 4 programmes finite and |s|<=4; tone frequency from threshold crossings within 1 %. Histories: every sequence of <=3 operations over 99 ops (16 registers x {00,01,0F,10,1F,FF}, generate 1/7/1000) and of <=4 (quick) / <=5 (thorough) over a 24-op reduced alphabet, each replayed on a fresh chip: no panic, samples bounded, then 1024 (quick) / 2048 (thorough) chip ticks judged against the final register file (half periods, noise clock, envelope grid, gated output sum) and write-only R13-free histories against register-order writing. Ports: 256 select values x data alphabet x {48K+AY,128K} through CPU-executed OUT/IN. states = distinct post-history core behaviours; distinct = outcome digests",
+        "E-PROD + E-BFS. Core (chip tick = f_clk/8, hooks verif_tick/verif_levels): all 4096 tone period values (incl. 0) x 3 channels: toggle count and exact half period on the raw output; R6 values: noise clock count and interval; 16 shapes x EP {1,2,3,255,256,4095,65535} x 100 steps against the documented ramp pattern (constant phase free), amplitude monotone in level; all 256 R7 values x 3 channels against (tone|off)&(noise|off) built from measured tone-only/noise-only waves; all 256 volume register values x 3 channels x AY/YM; 7 stereo modes x 3 channels x AY/YM. API: 12 sample rates x 4 programmes finite and |s|<=4; tone frequency from threshold crossings within 1 %. Histories: every sequence of <=3 operations over 99 ops (16 registers x {00,01,0F,10,1F,FF}, generate 1/7/1000) and of <=4 (quick) / <=5 (thorough) over a 24-op reduced alphabet, each replayed on a fresh chip: no panic, samples bounded, then 1024 (quick) / 2048 (thorough) chip ticks judged against the final register file (half periods, noise clock, envelope grid, gated output sum) and write-only R13-free histories against register-order writing. Ports: 256 select values x data alphabet x {48K+AY,128K} through CPU-executed OUT/IN; port-to-chip forwarding: scripts of register writes made through the ports at frame starts (the same shape value re-written for all 16 shapes, every register re-written with its own value through select aliases, one change per frame, registers 14/15) x {48K+AY,128K} x {8000, 22050 Hz}: every audio sample of every frame must equal (1e-5) that of an AY or YM AymPrecise, with or without DC filter, fed exactly those writes. states = distinct post-history core behaviours; distinct = outcome digests",
         all_parts,
         &[
             "tone/noise phase, exact analog sample values and the +-1 counting convention are not judged",
@@ -1309,6 +1488,16 @@ fn replay_case(path: &str) -> i32 {
         "api-tone" => api_tone_case(u("rate") as usize, u("tp") as u16, u("millis") as usize, true).map(|_| ()),
         "hist" => guarded("tables:write_register/tick", || Ok(measure_tables())).and_then(|tb| hist_case(&ops_from(&c["ops"]), &tb, (u("post_ticks") as usize).max(64), true).map(|_| ())),
         "tables" => guarded("tables:write_register/tick", || Ok(measure_tables())).map(|_| ()),
+        "port-audio" => {
+            let name = c["script"].as_str().unwrap_or("");
+            match forwarding_scripts().into_iter().find(|x| x.0 == name) {
+                Some((n, sc)) => forwarding_case(b("m128"), u("rate") as usize, u("mode") as u8, &n, &sc, true).map(|_| ()),
+                None => {
+                    eprintln!("MACHINERY: unknown script {:?}", name);
+                    return 2;
+                }
+            }
+        }
         "port" => {
             let mut e = port_emu(b("m128"));
             port_case(&mut e, b("m128"), u("sel") as u8, u("data") as u8, true).map(|_| ())
